@@ -660,6 +660,37 @@ def generate(repo):
     g.item('diffraction_limited_mtf', 'prysm/otf.py:diffraction_limited_mtf', lambda: get_def(ot, 'diffraction_limited_mtf'), difflim,
            f'def difflimNu {KHO} (abs : K → K) (f wavelength fno : K) : K := {M}.difflimNu abs f wavelength fno')
 
+    # ------------------------------------------------------------------ atmospheric helpers (otf.py)
+    class _PowToCall(ast.NodeTransformer):
+        """`a ** e` with a non-integer-literal exponent -> `rpow(a, e)` (the real power is a parameter of the model)"""
+        def visit_BinOp(self, node):
+            self.generic_visit(node)
+            if isinstance(node.op, ast.Pow) and not (isinstance(node.right, ast.Constant) and isinstance(node.right.value, int)):
+                return ast.Call(func=ast.Name(id='rpow', ctx=ast.Load()), args=[node.left, node.right], keywords=[])
+            return node
+
+    def _atm(pyname, lname, params, extra=''):
+        def build():
+            fn = get_def(ot, pyname)
+            body = [ast.fix_missing_locations(_PowToCall().visit(ast.parse(ast.unparse(s_)).body[0])) for s_ in fn.body
+                    if not (isinstance(s_, ast.Expr) and isinstance(s_.value, ast.Constant))]
+            env = {p_: q_ for p_, q_ in params}
+            env['np.pi'] = 'pi'
+            tr = Tr(env, mode='num', funcs={'np.exp': 'exp', 'rpow': 'rpow'})
+            return f'def {lname} {KH} {extra}({" ".join(q_ for _, q_ in params)} : K) : K :=\n  ' + body_to_lean(body, tr)
+        return build
+    LE = [('nu', 'nu'), ('Cn', 'Cn'), ('z', 'z'), ('f', 'f'), ('lambdabar', 'lambdabar'), ('h_z_by_r', 'h')]
+    g.item('longexposure_otf', 'prysm/otf.py:longexposure_otf', lambda: get_def(ot, 'longexposure_otf'),
+           _atm('longexposure_otf', 'longExposureOtf', LE, '(exp : K → K) (rpow : K → K → K) (pi : K) '),
+           f'def longExposureOtf {KH} (exp : K → K) (rpow : K → K → K) (pi : K) (nu Cn z f lambdabar h : K) : K := '
+           f'{M}.longExposureOtf exp rpow pi nu Cn z f lambdabar h')
+    g.item('komogorov', 'prysm/otf.py:komogorov', lambda: get_def(ot, 'komogorov'),
+           _atm('komogorov', 'komogorov', [('r', 'r'), ('r0', 'r0')], '(rpow : K → K → K) '),
+           f'def komogorov {KH} (rpow : K → K → K) (r r0 : K) : K := {M}.komogorov rpow r r0')
+    g.item('estimate_Cn', 'prysm/otf.py:estimate_Cn', lambda: get_def(ot, 'estimate_Cn'),
+           _atm('estimate_Cn', 'estimateCn', [('P', 'P'), ('T', 'T'), ('Ct', 'Ct')]),
+           f'def estimateCn {KH} (P T Ct : K) : K := {M}.estimateCn P T Ct')
+
     return g.finish()
 
 
